@@ -185,7 +185,11 @@ impl Database {
             pendding_conflict.len()
         );
         for conflict in pendding_conflict {
-            let conflict_command = self.get_value(conflict.clone()).unwrap().value;
+            // Another session may have removed the record since the keys were listed
+            let conflict_command = match self.get_value(conflict.clone()) {
+                Some(value) => value.value,
+                None => continue,
+            };
             if conflict_command.starts_with(RESOLVED_KEY_PREFIX) {
                 log::debug!("Conflict {} already resolved, remove the key", conflict);
                 self.remove_value(conflict.clone());
@@ -200,7 +204,7 @@ impl Database {
         let pendding_conflict = self.list_conflicts_keys(key);
         let values = pendding_conflict
             .iter()
-            .map(|key| self.get_value(key.clone()).unwrap().value)
+            .filter_map(|key| self.get_value(key.clone()).map(|value| value.value)) // a record listed a moment ago may be gone
             .collect::<Vec<_>>();
         values
             .iter()
@@ -229,7 +233,7 @@ impl Database {
             let pendding_conflict = self.list_conflicts_keys(&change.key);
             let values = pendding_conflict
                 .iter()
-                .map(|key| self.get_value(key.clone()).unwrap().value)
+                .filter_map(|key| self.get_value(key.clone()).map(|value| value.value)) // a record listed a moment ago may be gone
                 .collect::<Vec<_>>();
             log::debug!(
                 "has_pendding_conflict conflict change key: {} version : {}, list: {}",
